@@ -35,7 +35,7 @@ type ExponentialDistribution struct {
 /* -------------------------------------------------------------------------- */
 
 func NewExponentialDistribution(lambda Scalar) (*ExponentialDistribution, error) {
-  if lambda.GetFloat64() <= 0.0 {
+  if !(lambda.GetFloat64() > 0.0) {
     return nil, fmt.Errorf("invalid value for parameter lambda: %f", lambda.GetFloat64())
   }
   // some constants
